@@ -326,3 +326,15 @@ func HarnessC04TransportFailure() {
 		check(CodeOf(err) != 0, "the failure of the exchange is reported with a non-zero code")
 	}
 }
+
+// HarnessC04NothingHangs: the "nothing hangs" clause through the full stack:
+// the client/handler program families of C14 (c14Run, deterministic
+// schedule), which include a Send issued after the response ended - cleanly or
+// not - on a transport that keeps the request body open: every operation
+// returns (a state with every goroutine blocked is a deadlock), and a Send
+// after the end fails with an error wrapping io.EOF.
+//
+//verif:harness property=C04 stubs=json,wire shard=proto:3 race=on
+func HarnessC04NothingHangs() {
+	c14Run(nondetChoice("proto", 3), false)
+}
